@@ -17,8 +17,9 @@ ASSUMPTIONS = ['MPI-IO / POSIX modelled, not verified', 'sparse files: only sing
 
 def run(ctx):
     def judge(sess, r):
-        return SS.judge(sess, r, check_frame=False) + size_gen.judge_size(sess, r)
+        return SS.judge(sess, r, check_frame=False) + size_gen.judge_size(sess, r) + size_gen.judge_reclimit(sess, r)
     gens = [('size', dict(fn=lambda rng: size_gen.gen_size_session(rng), share=3)),
-            ('wide', dict(fn=lambda rng: size_gen.gen_wide_session(rng), share=1))]
+            ('wide', dict(fn=lambda rng: size_gen.gen_wide_session(rng), share=1)),
+            ('reclimit', dict(fn=lambda rng: size_gen.gen_reclimit_session(rng), count=(4, 24)))]
     api_check.run_api_check(ctx, gens, None, n_quick=35, n_thorough=400, judge=judge,
                             gens_translators=('consts', 'vlens'))
